@@ -31,6 +31,9 @@ rep("    stack : list path }.", "    stack : list (path * bool) }.")
 rep("(libraries st) (p :: stack st).", "(libraries st) ((p, false) :: stack st).")
 rep("    Ok (FileStack None [] r.1 ls r.1, r.2).",
     "    Ok (FileStack None [] [] ls (map (fun c => (c, true)) r.1), r.2).")
+# fourth audit: `new` now goes through add_files_once (fix 517e7a0); `new_all` above is the code before it
+rep("    Ok (FileStack None [] r.2.1 ls r.2.1, r.2.2).",
+    "    Ok (FileStack None [] [] ls (map (fun c => (c, true)) r.2.1), r.2.2).")
 rep("""  Fixpoint pop_next (black : list path) (stk : list path) : option (path * list path) :=
     match stk with
     | [] => None
